@@ -430,6 +430,7 @@ func supervisorMain() int {
 					return
 				}
 				single := false
+				wdRetried := false
 				for from < to {
 					spec := WorkerSpec{Prop: cfg.Prop, Tier: cfg.Tier, Seed: cfg.Seed, From: from, To: to, Out: filepath.Join(cfg.WorkDir, fmt.Sprintf("w%d-%d.json", wkr, from)), ReplayDir: cfg.ReplayDir}
 					gmp := 1
@@ -493,6 +494,17 @@ func supervisorMain() int {
 							break
 						}
 						from = co.lastIdx + 1
+						continue
+					}
+					if co.watchdog && !wdRetried {
+						// the watchdog measures real time, so a starved machine can trip it on a run that is fine
+						// (seen once: C05 quick, seed 72, while another full check shared the cores). The chunk is a
+						// pure function of the seed, so it is run again once, whole; a run that really does not end
+						// trips it again and is reported as trouble (exit 2) as before.
+						wdRetried = true
+						agg.mu.Lock()
+						agg.Stats["harness.watchdog.chunk-retried"]++
+						agg.mu.Unlock()
 						continue
 					}
 					if co.watchdog || !co.crashed || co.lastIdx < 0 {
